@@ -126,6 +126,12 @@ func baseFamilies() []family {
 			gen: func(n int) string { return "SELECT " + rep(n, `'C:\\d'`, ", ") }},
 		{name: "quoted-identifiers-many", doc: "n double-quoted identifiers with a doubled quote each", bytesPer: 9,
 			gen: func(n int) string { return "SELECT " + rep(n, `"a""b"`, ", ") + " FROM t" }},
+		{name: "quoted-identifiers-typographic", doc: "n identifiers in typographic double quotes on one line", bytesPer: 12,
+			gen: func(n int) string { return "SELECT " + rep(n, "\u201cab\u201d", ", ") + " FROM t" }},
+		{name: "quoted-identifiers-backtick", doc: "n back-ticked identifiers on one line", bytesPer: 8,
+			gen: func(n int) string { return "SELECT " + rep(n, "`ab`", ", ") + " FROM t" }},
+		{name: "strings-typographic", doc: "n string literals in typographic single quotes on one line", bytesPer: 12,
+			gen: func(n int) string { return "SELECT " + rep(n, "\u2018ab\u2019", ", ") }},
 		{name: "numbers-many", doc: "n numeric literals in every form", bytesPer: 8,
 			gen: func(n int) string { return "SELECT " + rep(n, "1.5e3", ", ") }},
 		{name: "strings-many", doc: "n short string literals on one line", bytesPer: 5,
